@@ -12,6 +12,8 @@ pub fn year_str(y: i64) -> String { if (0..=9999).contains(&y) { format!("{:04}"
 pub fn exec(op: &str, a: &Value) -> Option<Value> {
     Some(match op {
         "PlainDate.toPlainDateTime" => run(|| arg_date(&a["recv"])?.to_plain_date_time(Some(arg_time(&a["time"])?)), p_datetime),
+        // the receiver is the date at noon (valid on every day of the range); its time is then replaced
+        "PlainDateTime.withTime" => run(|| { let d = arg_date(&a["recv"])?; PlainDateTime::try_new(d.iso_year(), d.iso_month(), d.iso_day(), 12, 0, 0, 0, 0, 0, iso())?.with_time(arg_time(&a["time"])?) }, p_datetime),
         "PlainDateTime.fromDateAndTime" => run(|| PlainDateTime::from_date_and_time(arg_date(&a["recv"])?, arg_time(&a["time"])?), p_datetime),
         // the infallible conversion: the value is projected through getters (its Display may panic)
         "PlainDateTime.fromPlainDate" => run(|| Ok(PlainDateTime::from(arg_date(&a["recv"])?)), p_datetime),
